@@ -217,6 +217,17 @@ Proof.
   - exact (inner_not_begin _ H X).
 Qed.
 
+Lemma uncap_two : forall tk a b,
+  get k_showwarning a = get k_showwarning b -> get k_saved_showwarning a = get k_saved_showwarning b ->
+  get k_showwarning (uncap tk a) = get k_showwarning (uncap tk b) /\
+  get k_saved_showwarning (uncap tk a) = get k_saved_showwarning (uncap tk b).
+Proof.
+  intros tk a b H1 H2. unfold uncap, uncapture. destruct (t_capture_started tk); [|split; assumption].
+  rewrite H2. destruct (get k_saved_showwarning b) as [[|n|n|n]|] eqn:G; try (split; [exact H1|congruence]).
+  all: split; [rewrite !(get_set_neq k_showwarning k_saved_showwarning) by discriminate; rewrite !get_set_eq; reflexivity
+              |rewrite !get_set_eq; reflexivity].
+Qed.
+
 Lemma show_not_cy_begin : ~ In k_showwarning (k_cythonize :: begin_keys).
 Proof. intros [X|X]; [discriminate|]. apply (misc_not_begin k_showwarning); [left; reflexivity|exact X]. Qed.
 Lemma saved_not_cy_begin : ~ In k_saved_showwarning (k_cythonize :: begin_keys).
@@ -258,7 +269,7 @@ Proof.
   assert (G' : forall k, ~ In k outer_keys -> get k s' = get k s4).
   { intros k N. destruct F' as [F' _]. apply F'. intros X; apply N; apply Io; exact X. }
   exists s4, (excf || negb true), s'.
-  split. { unfold exit_parse. rewrite RunE, RT, X4. reflexivity. }
+  split. { unfold exit_parse. rewrite RunE, X4. reflexivity. }
   split; [exact X'|].
   split; [exact V'|].
   split.
@@ -288,24 +299,15 @@ Proof.
   { unfold callable. rewrite (Fe k_abspath); [reflexivity|].
     intros [X|X]; [discriminate|]. exact (begin_not_outer _ X abspath_in_outer). }
   assert (SE : forall k, (k = k_showwarning \/ k = k_saved_showwarning) -> get k se = get k sp).
-  { intros k [->|->]; apply Fe; [exact show_not_cy_begin|exact saved_not_cy_begin]. }
+  { intros k [ -> | -> ]; apply Fe; [exact show_not_cy_begin|exact saved_not_cy_begin]. }
   split.
   { intros M C GS. rewrite <- Me in M. rewrite <- CA in C.
     assert (GS' : get k_saved_showwarning se <> None) by (rewrite SE by (right; reflexivity); exact GS).
     destruct (Uf M C GS') as [U1 U2].
-    assert (EQ : forall k, get k (uncap tk se) = get k (uncap tk sp)).
-    { intros k. unfold uncap, uncapture. destruct (t_capture_started tk).
-      - rewrite (SE k_saved_showwarning) by (right; reflexivity).
-        destruct (get k_saved_showwarning sp) as [[| | |]|];
-          try (destruct (key_eq_dec k k_saved_showwarning) as [->|N1];
-               [rewrite !get_set_eq; reflexivity|rewrite !(get_set_neq k k_saved_showwarning) by exact N1];
-               destruct (key_eq_dec k k_showwarning) as [->|N2];
-               [rewrite !get_set_eq; reflexivity|rewrite !(get_set_neq k k_showwarning) by exact N2]).
-        all: admit_free_placeholder.
-      - admit_free_placeholder. }
+    destruct (uncap_two tk se sp (SE _ (or_introl eq_refl)) (SE _ (or_intror eq_refl))) as [Q1 Q2].
     split.
-    - rewrite MO by (left; reflexivity). rewrite U1. apply EQ.
-    - rewrite MO by (right; left; reflexivity). rewrite U2. apply EQ. }
+    - rewrite MO by (left; reflexivity). rewrite U1. exact Q1.
+    - rewrite MO by (right; left; reflexivity). rewrite U2. exact Q2. }
   assert (R' : rest s' = rest sf).
   { destruct F' as [_ R1], F4 as [_ R2]. congruence. }
   unfold rest in R'.
